@@ -3,8 +3,8 @@
 import sys, os, json, shutil, re
 ID, k, detected, how = sys.argv[1], sys.argv[2], sys.argv[3], sys.argv[4]
 R = os.environ.get("ROUND", "1")
-src = {"1": f"/tmp/seed/out/{ID}/{k}", "2": f"/tmp/seed/out2/{ID}/{k}", "3": f"/tmp/seed/out3/{ID}/{k}"}[R]
-dst = {"1": f"/verif/seeded/{ID}-{k}", "2": f"/verif/seeded/{ID}-r2-{k}", "3": f"/verif/seeded/{ID}-r3-{k}"}[R]
+src = {"1": f"/tmp/seed/out/{ID}/{k}", "2": f"/tmp/seed/out2/{ID}/{k}", "3": f"/tmp/seed/out3/{ID}/{k}", "4": f"/tmp/seed/out4/{ID}/{k}"}[R]
+dst = {"1": f"/verif/seeded/{ID}-{k}", "2": f"/verif/seeded/{ID}-r2-{k}", "3": f"/verif/seeded/{ID}-r3-{k}", "4": f"/verif/seeded/{ID}-r4-{k}"}[R]
 os.makedirs(dst, exist_ok=True)
 shutil.copy(src + "/patch.diff", dst + "/patch.diff")
 for name in ("demo", "demo.sh"):
@@ -21,8 +21,9 @@ except Exception as e:
     meta = {"note": "meta.json from the seeding agent unreadable: " + str(e)}
 conf = ""
 logs = ["/tmp/seed/" + l for l in sorted(os.listdir("/tmp/seed")) if l.startswith("confirm") and l.endswith(".log")]
-if os.path.isdir("/tmp/seed/confirm3"):
-    logs += ["/tmp/seed/confirm3/" + l for l in sorted(os.listdir("/tmp/seed/confirm3"))]
+for cd in ("/tmp/seed/confirm3", "/tmp/seed/confirm4"):
+    if os.path.isdir(cd):
+        logs += [cd + "/" + l for l in sorted(os.listdir(cd))]
 for log in logs:
     if True:
         for line in open(log):
@@ -34,11 +35,12 @@ out = {
     "needs_to_manifest": meta.get("needs_to_manifest", meta.get("needs", "")),
     "failing_input": meta.get("failing_input", ""),
     "origin": "independent sub-agent given only the property text and a scratch git worktree of /repo (nothing from /verif)" + ("; round 2: additionally required to be correct on all small/ordinary inputs and wrong only on large or rare ones" if R == "2" else "")
-              + ("; round 3: required to need something specific to manifest (a multi-step history, a large or rare input, two cooperating edits, an unusual macro invocation, a panic at a particular point)" if R == "3" else ""),
+              + ("; round 3: required to need something specific to manifest (a multi-step history, a large or rare input, two cooperating edits, an unusual macro invocation, a panic at a particular point)" if R == "3" else "")
+              + ("; round 4 (on the tree with all repairs up to a6790b3): a change in the code a MACRO expands to at the call site, or in a rarely used corner of the API, that needs something specific to manifest" if R == "4" else ""),
     "confirmed_by_me": {
         "command": f"ROUND={R} notes/confirm_seed.sh {ID} {k}  (scratch worktree: apply patch; cargo test --workspace --no-fail-fast --offline; run demo; undo; run demo)",
         "result": conf,
-        "baseline_tests_md5": "6cc73c6778be",
+        "baseline_tests_md5": os.environ.get("BASE_MD5", "6cc73c6778be"),
         "meaning": "tests_md5 equal to the baseline = identical pass/fail set (247 pass + the 3 always-failing tests + doctests); demo exit 101/non-zero with the change, 0 without",
     },
     "detected_by_check": detected,
